@@ -63,8 +63,17 @@ func c19LoadWords(n int) {
 	content := verifBytes("file", n)
 	if n >= 6 {
 		// the word-length field is kept small: the executor enumerates slice lengths
-		verifAssume(content[5] == 0)
-		verifAssume(content[4] <= 16)
+		switch verifIntRange("wordLenClass", 0, 3) {
+		case 0:
+			verifAssume(content[5] == 0)
+			verifAssume(content[4] <= 16)
+		case 1: // longer than any fixed scratch buffer would be
+			content[4], content[5] = 129, 0
+		case 2:
+			content[4], content[5] = 44, 1 // 300
+		case 3:
+			content[4], content[5] = 255, 255
+		}
 	}
 	verifFSPutBytes(path, content)
 	verifAllocBound(65536+n, "C19: loading never consumes memory out of proportion to the file's size")
